@@ -2,7 +2,7 @@
 
 MODULE = "DtailModel.Props.C02"
 # scripts with real waits: a disagreement counts only if it reproduces when re-run alone (flake policy, DESIGN 2.3)
-TIMED_OPS = ("c02.session", "c02.e2e", "c02.many", "c02.eofstall", "c02.bad")
+TIMED_OPS = ("c02.session", "c02.e2e", "c02.many", "c02.eofstall", "c02.bad", "c02.long")
 GROUPS = ["C02"]
 BINS = True
 LOGGER = "none"
@@ -40,6 +40,9 @@ def gen(rng, budget, tier):
     if tier == "thorough":
         yield "c02.eofstall 512 2 12000"
         yield "c02.eofstall 4096 1 7000"
+    # seeded round 6: lines of several KiB (beyond small read buffers, below MaxLineLength) in a file that goes on behind them
+    yield "c02.long 400 5000 2"
+    yield f"c02.long {rng.choice([40, 150])} {rng.choice([4095, 4096, 9000, 70000])} {rng.choice([3, 7])}"
     sizes_pool = [0, 1, 5, 99, 100, 101, 250]
     for i in range(budget):
         if i % 9 == 8:
